@@ -226,6 +226,10 @@ def _run(ctx, w):
     from rules import c02
     c02.relayout_clears_wrap(ctx, w, S, R, "P10")
     c02.row_units(ctx, w, S, R, "P11")
+    from rules import prims, c10 as _c10
+    prims.ctor_semantics(ctx, w, S, "P12")
+    # the primary is "re-wrapped but never altered": what a re-wrap may drop is decided by the default-cell predicate only
+    _c10.q1_rules(ctx, w, S, R, S.buffer_resize_fn)
     from rules import c01 as _c01
     _c01.loop_index(ctx, w, S, _c01.api_reach(w))
 
